@@ -579,22 +579,19 @@ int bignum_cmp(bn_t a, bn_t b)
 }
 
 
-/* Signed compare bn */
+/* Signed compare bn (two's complement on BN_BIT_SIZE bits) */
 int bignum_cmp_signed(bn_t a, bn_t b)
 {
-	int i = BN_ARRAY_SIZE;
-	do {
-		i -= 1; /* Decrement first, to start with last array element */
-		if ((DTYPE_SIGNED)a.array[i] > (DTYPE_SIGNED)b.array[i]) {
-			return LARGER;
-		}
-		else if ((DTYPE_SIGNED)a.array[i] < (DTYPE_SIGNED)b.array[i]) {
-			return SMALLER;
-		}
-	}
-	while (i != 0);
+	int i = BN_ARRAY_SIZE - 1;
 
-	return EQUAL;
+	/* Only the most significant word carries the sign */
+	if ((DTYPE_SIGNED)a.array[i] > (DTYPE_SIGNED)b.array[i]) {
+		return LARGER;
+	}
+	else if ((DTYPE_SIGNED)a.array[i] < (DTYPE_SIGNED)b.array[i]) {
+		return SMALLER;
+	}
+	return bignum_cmp(a, b);
 }
 
 
